@@ -33,11 +33,14 @@ def SectionSound (n : Nat) (sec : Section) : Prop :=
     (expOf sec.exps i).eval (stateEnv n s) = (runClassical sec.gates s).getD i false ∧
     (qname i ∉ Dict.keys sec.exps → (runClassical sec.gates s).getD i false = s.getD i false)
 
-/-- the full property, for the repaired model -/
+/-- the full property, for the repaired model: on every circuit built through `QCircuit.append`
+(`WF`: wires are qubits of the circuit, arity = `n_qubits`) the decompiler returns sections, they
+are exactly the maximal classical runs (`Decomp`, index form in `sections_exact`), and every
+section is sound -/
 def C11_statement : Prop :=
-  ∀ (n : Nat) (gs : List AGate) (secs : List Section),
-    decompile Quirks.none rawKernel n gs = .ok secs →
-    Decomp Quirks.none rawKernel n 0 gs secs ∧ ∀ sec ∈ secs, SectionSound n sec
+  ∀ (n : Nat) (gs : List AGate), (∀ g ∈ gs, WF n g) →
+    ∃ secs, decompile Quirks.none rawKernel n gs = .ok secs ∧
+      Decomp Quirks.none rawKernel n 0 gs secs ∧ ∀ sec ∈ secs, SectionSound n sec
 
 /-! ## the class tests, on the generated tables -/
 
@@ -166,9 +169,37 @@ theorem sections_sound (q : Quirks) (K : Kernel) (hK : K.Sound) (n : Nat) (gs : 
       · exact ih sec hsec
   exact key 0 gs secs hd
 
+/-- the repaired model returns sections for every well-formed circuit (no exception) -/
+theorem decompile_total (K : Kernel) (n : Nat) (gs : List AGate) (h : ∀ g ∈ gs, WF n g) :
+    ∃ secs, decompile Quirks.none K n gs = .ok secs := decompile_ok K n gs h
+
 /-- the property for the repaired model -/
-theorem C11_full : C11_statement := fun n gs secs h =>
-  ⟨decompile_decomp _ _ n gs secs h, sections_sound _ _ rawKernel_sound n gs secs h⟩
+theorem C11_full : C11_statement := fun n gs hwf => by
+  obtain ⟨secs, h⟩ := decompile_ok rawKernel n gs hwf
+  exact ⟨secs, h, decompile_decomp _ _ n gs secs h, sections_sound _ _ rawKernel_sound n gs secs h⟩
+
+/-- the property for the code as it is (any quirk setting), on every circuit that does not run
+into a listed defect (`triggers`: contains an `I` gate / an `MCtrl(X, n)` gate while the
+corresponding flag is on): there it behaves exactly as the repaired code -/
+theorem C11_partial (q : Quirks) (n : Nat) (gs : List AGate) (ht : triggers q gs = false)
+    (hwf : ∀ g ∈ gs, WF n g) :
+    decompile q rawKernel n gs = decompile Quirks.none rawKernel n gs ∧
+    ∃ secs, decompile q rawKernel n gs = .ok secs ∧
+      Decomp Quirks.none rawKernel n 0 gs secs ∧ ∀ sec ∈ secs, SectionSound n sec := by
+  have e := decompile_congr q rawKernel n gs ht
+  refine ⟨e, ?_⟩
+  rw [e]
+  exact C11_full n gs hwf
+
+/-- the hypotheses of `C11_partial` are satisfiable with both flags on -/
+example : triggers (Quirks.ofList ["identityGateRaises", "mctrlXSplits"])
+    [⟨.X, [0], .none, 0⟩, ⟨.Barrier, [], .none, 0⟩, ⟨.H, [1], .none, 0⟩, ⟨.MCX 2, [0, 1, 2], .none, 0⟩] = false ∧
+    ∀ g ∈ ([⟨.X, [0], .none, 0⟩, ⟨.Barrier, [], .none, 0⟩, ⟨.H, [1], .none, 0⟩,
+      ⟨.MCX 2, [0, 1, 2], .none, 0⟩] : List AGate), WF 3 g := by
+  refine ⟨by decide, ?_⟩
+  intro g hg
+  simp only [List.mem_cons, List.mem_nil_iff, or_false] at hg
+  rcases hg with rfl | rfl | rfl | rfl <;> exact ⟨by decide, by decide⟩
 
 /-- hypotheses are satisfiable: a circuit with two runs, barriers at the boundaries -/
 example : (decompile Quirks.none rawKernel 3
